@@ -89,11 +89,18 @@ def render(ir, module_name: str, eq: bool = True) -> str:
         "class Outside:",
         "    z: int = 0",
         "",
+        "from typing import Generic, TypeVar",
+        "T_ = TypeVar('T_')",
+        "class Wrapper(Generic[T_]):",
+        "    pass",
+        "",
     ]
     if ir.get("extras"):
         lines += EXTRAS.splitlines()
     for c in ir["classes"]:
         bases = [names[b] for b in (c["base"], c.get("base2")) if b is not None]
+        if c.get("generic"):
+            bases.append("Wrapper[int]")  # a parameterised generic base that is not part of the model
         base = f"({', '.join(bases)})" if bases else ""
         lines.append("@dataclass" if eq else "@dataclass(eq=False)")
         lines.append(f"class {c['name']}{base}:")
@@ -290,7 +297,7 @@ def classify(t) -> Dict[str, Any]:
 @st.composite
 def model_ir(draw, max_classes=6, grammar="diagram", allow_self=True, allow_ext=True, allow_type=True,
              allow_seq=True, allow_set=True, allow_self_collection=True, allow_underscore=True, require_builtin=False,
-             allow_mutual=True, extras=False, uid=False, allow_mixin=False, chain_bias=False, allow_kw_only=False):
+             allow_mutual=True, extras=False, uid=False, allow_mixin=False, chain_bias=False, allow_kw_only=False, allow_generic=False):
     """grammar: "diagram" (C17: everything) or "orm" (C06: the documented modelling rules)"""
     n = draw(st.integers(1, max_classes))
     classes = []
@@ -311,6 +318,8 @@ def model_ir(draw, max_classes=6, grammar="diagram", allow_self=True, allow_ext=
         classes.append({"name": f"C{i}", "base": base, "fields": []})
         if base2 is not None:
             classes[-1]["base2"] = base2
+        if allow_generic and draw(st.integers(0, 4)) == 0:
+            classes[-1]["generic"] = True
     used_names = [set() for _ in range(n)]
 
     def inherited_names(i):
